@@ -202,6 +202,12 @@ func (srv *Server) handler(w http.ResponseWriter, r *http.Request) {
 				} else {
 					hash = srv.findHash(m)
 				}
+				if hash == "" || vers == "" {
+					// No commit hash is known for this version (or none was
+					// asked for): an empty string is a prefix of everything
+					// and must not match.
+					continue
+				}
 				if strings.HasPrefix(hash, vers) || strings.HasPrefix(vers, hash) {
 					best = m.Version
 				}
